@@ -58,7 +58,7 @@ func (c *Ctx) docDeletes() []*keySink {
 // metadata read from the catalog in the same transaction.
 func (c *Ctx) allIndexes(v ssa.Value) (bool, string) {
 	r := c.Roles()
-	for _, o := range origins(v) {
+	for _, o := range c.paramSources(v, 0) {
 		call, ok := o.(*ssa.Call)
 		if !ok {
 			return false, "index set does not come from the catalog-driven builder"
@@ -70,14 +70,14 @@ func (c *Ctx) allIndexes(v ssa.Value) (bool, string) {
 		// the builder takes the collection metadata
 		mi := -1
 		for i, p := range g.Params {
-			if pt, ok := p.Type().(*types.Pointer); ok && c.libNamedIs(pt.Elem(), "", "collectionMetadata") {
+			if c.isMetaPtr(p.Type()) {
 				mi = i
 			}
 		}
 		if mi < 0 {
 			return false, "index set builder does not take the collection metadata"
 		}
-		for _, mo := range origins(call.Common().Args[mi]) {
+		for _, mo := range c.paramSources(call.Common().Args[mi], 0) {
 			ex, ok := mo.(*ssa.Extract)
 			if !ok {
 				return false, "metadata passed to the index builder is not read from the catalog here"
@@ -244,8 +244,13 @@ func ruleIDX2(c *Ctx) []Ob {
 // ---------------------------------------------------------------- IDX3
 
 func (c *Ctx) isSizeAddr(v ssa.Value) (ssa.Value, bool) {
-	base, f, n := fieldOfAddr(v)
-	if f == "Size" && n != nil && c.libNamedIs(n, "", "collectionMetadata") {
+	base, _, n := fieldOfAddr(v)
+	m := c.metaStruct()
+	if n == nil || m == nil || !types.Identical(n, m) {
+		return nil, false
+	}
+	// the document counter: the integer field of the catalog record
+	if pt, ok := v.Type().Underlying().(*types.Pointer); ok && isIntType(pt.Elem()) {
 		return base, true
 	}
 	return nil, false
@@ -253,7 +258,7 @@ func (c *Ctx) isSizeAddr(v ssa.Value) (ssa.Value, bool) {
 
 // counterIncrements walks a counter value back to its +1 increments; ok=false
 // when the value is built from anything but 0, phis, cells and +1.
-func counterIncrements(v ssa.Value) (incs []*ssa.BinOp, ok bool) {
+func (c *Ctx) counterIncrements(v ssa.Value) (incs []*ssa.BinOp, ok bool) {
 	seen := map[ssa.Value]bool{}
 	ok = true
 	var walk func(v ssa.Value)
@@ -264,6 +269,29 @@ func counterIncrements(v ssa.Value) (incs []*ssa.BinOp, ok bool) {
 		seen[v] = true
 		for _, o := range origins(v) {
 			switch x := o.(type) {
+			case *ssa.Extract, *ssa.Call:
+				// a count returned by a library helper: look at what it returns
+				var call *ssa.Call
+				idx := 0
+				if ex, isEx := x.(*ssa.Extract); isEx {
+					call, _ = ex.Tuple.(*ssa.Call)
+					idx = ex.Index
+				} else {
+					call = x.(*ssa.Call)
+				}
+				var g *ssa.Function
+				if call != nil {
+					g = staticCallee(call)
+				}
+				if g == nil || !c.IsLib(c.declared(g)) {
+					ok = false
+					return
+				}
+				for _, ret := range returnsOf(c.declared(g)) {
+					if rv, okr := returnedValue(ret, idx); okr {
+						walk(rv)
+					}
+				}
 			case *ssa.Const:
 				if k, isInt := constInt(x); !isInt || k != 0 {
 					ok = false
@@ -316,7 +344,7 @@ func ruleIDX3(c *Ctx) []Ob {
 					continue
 				}
 				// bo.X must be the old Size
-				if _, f, n := fieldLoad(bo.X); f != "Size" || n == nil {
+				if _, f, n := fieldLoad(bo.X); f == "" || n == nil || c.metaStruct() == nil || !types.Identical(n, c.metaStruct()) {
 					o.add(UNDECIDED, key, pos, "counter update is not of the form Size = Size ± x")
 					continue
 				}
@@ -383,7 +411,7 @@ func ruleIDX3(c *Ctx) []Ob {
 						}
 					} else {
 						key += " -= counter"
-						incs, okc := counterIncrements(bo.Y)
+						incs, okc := c.counterIncrements(bo.Y)
 						if !okc || len(incs) == 0 {
 							verdict, msg = UNDECIDED, "the amount subtracted is not a counter of +1 increments"
 							break
@@ -704,6 +732,9 @@ func ruleID2(c *Ctx) []Ob {
 				scan = true
 			}
 		})
+		if !scan && c.scanDerived(rootFunc(wc.Fn), 0, map[*ssa.Function]bool{}) {
+			scan = true
+		}
 		if rootFunc(wc.Fn) != wc.Fn {
 			// a closure of a function that runs a scan (bulk path)
 			allCalls(rootFunc(wc.Fn), func(call ssa.CallInstruction) {
@@ -817,4 +848,32 @@ func constantStringVal(cst *types.Const) string {
 		return s[1 : len(s)-1]
 	}
 	return s
+}
+
+// scanDerived: fn runs a scan itself, or every library caller of fn does
+// (the documents it works on were read from the store in this transaction).
+func (c *Ctx) scanDerived(fn *ssa.Function, depth int, seen map[*ssa.Function]bool) bool {
+	if seen[fn] || depth > 4 {
+		return false
+	}
+	seen[fn] = true
+	has := false
+	allCalls(fn, func(call ssa.CallInstruction) {
+		if c.calleeEff(call)&EffCursor != 0 {
+			has = true
+		}
+	})
+	if has {
+		return true
+	}
+	sites := c.staticCallers(fn)
+	if len(sites) == 0 {
+		return false
+	}
+	for _, s := range sites {
+		if !c.scanDerived(rootFunc(s.Parent()), depth+1, seen) {
+			return false
+		}
+	}
+	return true
 }
